@@ -152,6 +152,31 @@ static void pm2_space_tables(void)
 		for (sym = 0; sym < 29; ++sym) { ref_cmd c = pm2_cmd_for_symbol(sym, hi, (unsigned) (sym * 31) % 1024); ref_pm2_put(&PS.e, &c); }
 		pm2_finish(1);
 	}
+	/* lopsided complete codes over K symbols: lengths 1, 2, ..., K-1, K-1 (code words of up to 28 bits), both directions */
+	{
+		int K, dir, i;
+		for (K = 14; K <= 29; ++K)
+		for (dir = 0; dir < 2; ++dir)
+		for (hi = 0; hi < 2; ++hi) {
+			uint8_t full[32];
+			ref_pm2_ctable t;
+			ref_pm2_otable ot;
+			if (!vf_case("pm2 chain code over %d symbols (longest code %d bits), %s, %s ends", K, K - 1, dir ? "descending" : "ascending", hi ? "high" : "low")) continue;
+			memset(full, 0, sizeof full);
+			for (i = 0; i < K; ++i) {
+				int pos = dir ? K - 1 - i : i;
+				full[(i * 5) % 29 < 29 ? (i * 5) % 29 : i] = (uint8_t) (pos < K - 1 ? pos + 1 : K - 1);
+			}
+			if (!ref_pm2_ctable_from_lengths(&t, full, 29)) { printf("HARNESS chain table K=%d not accepted by the reference\n", K); continue; }
+			t.min_len = 1; t.length_bits = 5;
+			memset(&ot, 0, sizeof ot);
+			ot.len[0] = 1; ot.len[1] = 1;
+			pm2_begin(&t, &ot, NULL, 1);
+			for (i = 0; i < K; ++i) { ref_cmd c = pm2_cmd_for_symbol((i * 5) % 29, hi, hi ? 127 : 5); ref_pm2_put(&PS.e, &c); }
+			for (i = K - 1; i >= 0; --i) { ref_cmd c = pm2_cmd_for_symbol((i * 5) % 29, !hi, 64); ref_pm2_put(&PS.e, &c); }
+			pm2_finish(1);
+		}
+	}
 	/* single-code form for every symbol (incl. n=29, min_len=0: no offset table) */
 	for (sym = 0; sym < 29; ++sym)
 	for (v = 0; v < 5; ++v) {
